@@ -224,9 +224,9 @@ theorem makeParameterDynamic_toNone (n iv st) : ToNone (makeParameterDynamic n i
 
 /-! ### the generated-table obligation -/
 
-/-- the mutators whose own body writes something `createCache` reads (hand-written, from reading
-    `_create_cache`): everything except the plural / scale_ / make_variable_static forms, which only
-    delegate, and the readout mutators, whose container `createCache` does not read. -/
+/-- the mutators whose own body writes something `createCache` reads: everything except the plural / scale_ /
+    make_variable_static forms, which only delegate.  Justified from the source by `C03_table_must_invalidate`
+    (`writesItself m → mustInvalidate m`, and `_create_cache` reads all seven dictionaries). -/
 def mustInvalidate : Gen.Mut → Bool
   | .add_parameter | .remove_parameter | .update_parameter | .make_parameter_dynamic
   | .add_variable | .remove_variable | .update_variable
@@ -236,6 +236,14 @@ def mustInvalidate : Gen.Mut → Bool
   | .add_surrogate | .update_surrogate | .remove_surrogate
   | .add_data | .update_data | .remove_data => true
   | _ => false
+
+/-- a mutator whose OWN body writes one of the model's dictionaries or a component object stored in one (as read
+    from the source: an own-container write or a component write among its events) -/
+def writesItself (m : Gen.Mut) : Bool :=
+  (Gen.script m).any fun e => match e with
+    | .cwrite _ _ => true
+    | .write => true
+    | _ => false
 
 theorem table_invalidates (m : Gen.Mut) (h : mustInvalidate m = true) : Gen.invalidates m = true := by
   cases m <;> first | rfl | (simp [mustInvalidate] at h)
